@@ -255,6 +255,14 @@ fn catalogue(t: Tier) -> Vec<BytesCase> {
             v.push((s, 0, true));
         }
     }
+    // every whole-field rewrite of the greeting (signature intact, so the field is parsed)
+    for gv in hostile::greeting_variants() {
+        let mut s = gv.clone();
+        s.extend_from_slice(&ready);
+        v.push((s.clone(), 0, true));
+        v.push((s, 1, true));
+        v.push((gv, 0, false));
+    }
     // A3: command bodies
     for body in hostile::command_bodies() {
         for long in [false, true] {
@@ -657,6 +665,7 @@ fn hostile_outcome(c: &HostileCase) -> Outcome {
                 Mutation::Corrupt { .. } => "mut-corrupt",
                 Mutation::AppendRandom { .. } => "mut-append",
                 Mutation::ManyProps { .. } => "mut-many-props",
+                Mutation::GreetingField { .. } => "mut-greeting-field",
             }
             .to_string(),
         );
@@ -737,6 +746,11 @@ fn stage_catalogue(t: Tier) -> Vec<StageCase> {
     hostile_parts.push(vec![0xFF; 70]);
     hostile_parts.push(vec![0x00; 70]);
     hostile_parts.push(hostile::valid_greeting());
+    for gv in hostile::greeting_variants() {
+        let mut s = gv;
+        s.extend_from_slice(&refcodec::encode_ready("DEALER", None));
+        hostile_parts.push(s);
+    }
     let kinds: Vec<Kind> = ALL_KINDS.to_vec();
     for kind in kinds {
         for stage in [Stage::Greeting, Stage::Ready, Stage::Traffic] {
